@@ -451,6 +451,54 @@ Section Typed2.
     let* p := req_bytes 1 d in if (length p =? 32)%nat then Ok p else err.
 End Typed2.
 
+(* ---- mux::Handshake ----
+   The Rust value holds two HashMap<CapabilityId, u32>; `build` emits their entries in the HashMap's
+   iteration order, which is not a function of the map.  The model value is the pair of entry lists
+   in that (arbitrary) order: decode (encode h) = h holds, byte determinism does not (two orders of
+   the same map give different bytes).  The message is neither signed nor stored. *)
+Definition cap : Type := (Z * Z)%type.       (* capability id, max_streams *)
+Definition build_cap (c : cap) : dmsg := flatten [(1, [DVar (fst c)]); (2, [DVar (snd c)])].
+Definition read_cap (d : dmsg) : res cap :=
+  let* i := req_var 1 d in
+  let* m := req_var 2 d in
+  Ok (i, as_u32 m).
+(* ms.insert(id, max_streams).is_some() => "duplicate entry" *)
+Fixpoint caps_nodup (seen : list Z) (l : list cap) : bool :=
+  match l with
+  | [] => true
+  | c :: r => if existsb (Z.eqb (fst c)) seen then false else caps_nodup (fst c :: seen) r
+  end.
+Record MuxHandshake : Type := { mx_accept : list cap; mx_connect : list cap }.
+Definition build_mux (h : MuxHandshake) : dmsg :=
+  flatten [(5, map (fun c => DMsg (build_cap c)) (mx_accept h));
+           (6, map (fun c => DMsg (build_cap c)) (mx_connect h))].
+Definition read_caps (n : Z) (d : dmsg) : res (list cap) :=
+  let* l := sub_rep read_cap n d in
+  if caps_nodup [] l then Ok l else err.
+Definition read_mux (d : dmsg) : res MuxHandshake :=
+  let* a := read_caps 5 d in
+  let* c := read_caps 6 d in
+  Ok {| mx_accept := a; mx_connect := c |}.
+
+(* observation: the decoded maps as entry lists sorted by id (the order of the re-encoding is not
+   comparable) *)
+Fixpoint cap_insert (c : cap) (l : list cap) : list cap :=
+  match l with
+  | [] => [c]
+  | c' :: r => if fst c <=? fst c' then c :: l else c' :: cap_insert c r
+  end.
+Definition cap_sort (l : list cap) : list cap := fold_right cap_insert [] l.
+Definition obs_caps (l : list cap) : obsv := OL (map (fun c : cap => OL [OZ (fst c); OZ (snd c)]) (cap_sort l)).
+Definition run_mux_case (hex : string) : obsv :=
+  match denote schema idx_zksync_network_mux_Handshake (unhex hex) with
+  | None => OL [OZ 1]
+  | Some d =>
+      match read_mux d with
+      | Ok h => OL [OZ 0; obs_caps (mx_accept h); obs_caps (mx_connect h)]
+      | _ => OL [OZ 1]
+      end
+  end.
+
 (* ---- correspondence ---- *)
 
 Inductive tyname2 : Type :=
